@@ -6,7 +6,7 @@
    dispatch, so arity/type errors are still modelled for them. *)
 From Coq Require Import ZArith List Bool.
 From Coq Require Import Floats.SpecFloat.
-From Rscel Require Import Base.Prims Base.F64 Base.Text Model.Value Model.Ops Model.Dispatch.
+From Rscel Require Import Base.Prims Base.F64 Base.Text Base.FloatText Model.Value Model.Ops Model.Dispatch.
 Import ListNotations.
 Import Coq.Strings.String.StringSyntax.
 Open Scope Z_scope.
@@ -58,7 +58,9 @@ Definition double_arms : list arm := [
   arm1 PInt (fun a => match a with VInt z => ok (VFloat (f64_of_Z z)) | _ => bad end);
   arm1 PUInt (fun a => match a with VUInt z => ok (VFloat (f64_of_Z z)) | _ => bad end);
   arm1 PBool (fun a => match a with VBool b => ok (VFloat (if b then f64_one else f64_zero)) | _ => bad end);
-  arm1 PString (fun _ => unmod)            (* str::parse::<f64> *)
+  arm1 PString (fun a => match a with
+                         | VString s => match rust_parse_f64 s with Some x => ok (VFloat x) | None => verr EValue end
+                         | _ => bad end)
 ].
 
 (** [Duration::new(secs, nanos)]: in range iff the total lies within +-i64::MAX ms. *)
